@@ -187,6 +187,8 @@ func cmdCheck(args []string) int {
 	noEvidence := fs.Bool("noevidence", false, "do not write the evidence file")
 	timeout := fs.Int("timeout", 0, "per-query solver timeout in ms")
 	maxPaths := fs.Int("maxpaths", 0, "path budget")
+	noGuess := fs.Bool("noguess", false, "disable feasibility-by-witness guessing")
+	fix := fs.String("fix", "", "debugging: name=k,name=k forces named choices (run is then not exhaustive)")
 	fs.Parse(args)
 	if *prop == "" {
 		fmt.Fprintln(os.Stderr, "-prop required")
@@ -209,7 +211,18 @@ func cmdCheck(args []string) int {
 	if *workers > 0 {
 		cfg.Workers = *workers
 	}
+	if *fix != "" {
+		cfg.Fix = map[string]int{}
+		for _, kv := range strings.Split(*fix, ",") {
+			p := strings.SplitN(kv, "=", 2)
+			k, _ := strconv.Atoi(p[1])
+			cfg.Fix[p[0]] = k
+		}
+	}
 	seed, _ := strconv.Atoi(os.Getenv("VERIF_SEED"))
+	cfg.Seed = seed
+	cfg.GuessTries = 300
+	cfg.NoGuess = *noGuess
 
 	prog, _, err := loadProgram(nil)
 	if err != nil {
@@ -316,8 +329,8 @@ func cmdCheck(args []string) int {
 	for _, r := range results {
 		totalPaths += r.Paths
 	}
-	fmt.Printf("property=%s tier=%s harnesses=%d paths=%d queries=%d (sat %d unsat %d unknown %d) solver=%.1fs load=%.1fs explore=%.1fs wall=%.1fs violations=%d known=%d exit=%d\n",
-		*prop, *tier, len(hs), totalPaths, stats.Queries, stats.Sat, stats.Unsat, stats.Unknown, stats.SolverDur.Seconds(), tLoad.Seconds(), tExplore.Seconds(), wall.Seconds(), nViol, nKnown, exit)
+	fmt.Printf("property=%s tier=%s harnesses=%d paths=%d queries=%d (sat %d unsat %d unknown %d) guessed=%d/%d cached=%d solver=%.1fs load=%.1fs explore=%.1fs wall=%.1fs violations=%d known=%d exit=%d\n",
+		*prop, *tier, len(hs), totalPaths, stats.Queries, stats.Sat, stats.Unsat, stats.Unknown, stats.GuessHits, stats.GuessHits+stats.GuessMiss, stats.ModelHits, stats.SolverDur.Seconds(), tLoad.Seconds(), tExplore.Seconds(), wall.Seconds(), nViol, nKnown, exit)
 	return exit
 }
 
